@@ -78,7 +78,7 @@ Proof.
                              | Unmodelled => Unmodelled end)).
   { intro l. apply safe_match_prop.
     - apply mapM_safe. intros x _. apply resolve_type_safe.
-    - intro rs. apply unwind_safe. intro x. exact I. }
+    - intro rs. apply unwind_safe. intro x. unfold type_test. destruct (is_missing x); exact I. }
   destruct v; try apply H. destruct a; [exact I|apply H].
 Qed.
 
